@@ -11,8 +11,8 @@
 #include <sys/types.h>
 #include <unistd.h>
 
-typedef enum { C_OPEN_SRC, C_FSTAT_SRC, C_OPEN_DST, C_FSTAT_DST, C_FTRUNCATE, C_CFR, C_ALLOC, C_READ, C_WRITE, C_FDATASYNC, C_CLOSE_DST, C_CLOSE_SRC, C_N } Call;
-static const char* call_names[C_N] = {"open-src", "fstat-src", "open-dst", "fstat-dst", "ftruncate", "cfr", "alloc", "read", "write", "fdatasync", "close-dst", "close-src"};
+typedef enum { C_OPEN_SRC, C_FSTAT_SRC, C_OPEN_DST, C_FSTAT_DST, C_FTRUNCATE, C_CFR, C_ALLOC, C_READ, C_WRITE, C_FREE, C_FDATASYNC, C_CLOSE_DST, C_CLOSE_SRC, C_N } Call;
+static const char* call_names[C_N] = {"open-src", "fstat-src", "open-dst", "fstat-dst", "ftruncate", "cfr", "alloc", "read", "write", "free", "fdatasync", "close-dst", "close-src"};
 
 typedef struct { int call; long nth; int is_short; long val; } FaultSpec;
 
@@ -23,6 +23,7 @@ static int       scripting;
 static char      trace[1 << 14];
 static size_t    trace_len;
 static int       n_opens, n_fstats, dst_fd_seen = -1;
+static int       src_reports_no_size;   // kind regz: fstat of the source says st_size == 0 (as procfs text files do)
 static long      fired;
 
 static int
@@ -106,7 +107,9 @@ wrap_fstat_common(int fd, struct stat* sb)
   const Call c = (n_fstats++ == 0) ? C_FSTAT_SRC : C_FSTAT_DST;
   const FaultSpec* f = issue(c);
   if (f && !f->is_short) { errno = (int)f->val; return -1; }
-  return __real_fstat(fd, sb);
+  const int r = __real_fstat(fd, sb);
+  if (!r && c == C_FSTAT_SRC && src_reports_no_size) sb->st_size = 0;
+  return r;
 }
 
 int __wrap_fstat(int fd, struct stat* sb);
@@ -217,8 +220,10 @@ static void
 cb_aligned_free(ZixAllocator* a, void* p)
 {
   (void)a;
+  const FaultSpec* f = scripting ? issue(C_FREE) : NULL;
   if (p && p == cb_block) { ++cb_released_here; free(p); cb_block = NULL; }
   else if (p) ++cb_foreign_release;
+  if (f && !f->is_short) errno = (int)f->val;   // a release may leave errno set (free() did before glibc 2.33)
 }
 
 static void* cb_malloc(ZixAllocator* a, size_t n) { (void)a; return malloc(n); }
@@ -303,9 +308,11 @@ main(int argc, char** argv)
     const size_t size = strtoul(tok[2], NULL, 10);
     unsigned char* sdata = pattern(size, 7, 3, 251);
     const char* from = src;
-    if (!strcmp(tok[1], "reg")) write_file(src, sdata, size);
+    src_reports_no_size = !strcmp(tok[1], "regz");
+    const bool regular = !strcmp(tok[1], "reg") || src_reports_no_size;
+    if (regular) write_file(src, sdata, size);
     else if (!strcmp(tok[1], "dir")) mkdir(src, 0755);
-    else if (!strcmp(tok[1], "fifo")) { mkfifo(src, 0644); }
+    else if (!strncmp(tok[1], "fifo", 4)) { mkfifo(src, 0644); }   // fifo: kept open from the side; fifo0: nobody has it open
     const char* to = dst;
     if (!strncmp(tok[3], "file:", 5)) {
       const size_t dn = strtoul(tok[3] + 5, NULL, 10);
@@ -338,6 +345,7 @@ main(int argc, char** argv)
     if (!strcmp(tok[1], "fifo")) fifo_keep = __real_open(src, O_RDWR | O_NONBLOCK);
     const int fds_mid = count_fds();
     errno = 0;
+    if (!strcmp(tok[1], "fifo0")) alarm(10);   // an open() that waits for a writer never returns: stopped by the watchdog
     scripting = 1;
     const ZixStatus st = zix_copy_file(&cb_alloc, from, to, overwrite ? ZIX_COPY_OPTION_OVERWRITE_EXISTING : ZIX_COPY_OPTION_NONE);
     scripting = 0;
@@ -346,7 +354,7 @@ main(int argc, char** argv)
     (void)fds_before;
     // ---- look at the result
     printf("st=%d", (int)st);
-    if (!strcmp(tok[1], "reg")) {
+    if (regular) {
       unsigned char* now = NULL;
       const long     sn  = read_file(src, &now);
       printf(" src=%s", (sn == (long)size && !memcmp(now, sdata, size)) ? "ok" : "CHANGED");
